@@ -245,9 +245,11 @@ const ZeroID = "0000000000000000000000000000000000000000"
 
 // Verdict of the reference verifier.
 type Verdict struct {
-	OK     bool
-	Reason string // why rejected (class)
-	At     int    // index of the deciding entry
+	// Recovered counts violations tolerated through revoke-and-repair.
+	Recovered int
+	OK        bool
+	Reason    string // why rejected (class)
+	At        int    // index of the deciding entry
 }
 
 func reject(reason string, at int) Verdict { return Verdict{OK: false, Reason: reason, At: at} }
@@ -479,6 +481,7 @@ func (h *History) VerifyFrom(ref string, start, last int) Verdict {
 		a = h.attBefore(start)
 	}
 	i := start
+	recovered := 0
 	for i <= last {
 		e := h.Entries[i]
 		switch {
@@ -557,10 +560,11 @@ func (h *History) VerifyFrom(ref string, start, last int) Verdict {
 				}
 			}
 			i = fix
+			recovered++
 		}
 		i++
 	}
-	return Verdict{OK: true}
+	return Verdict{OK: true, Recovered: recovered}
 }
 
 // Full is verification of the whole log for ref.
